@@ -1525,7 +1525,9 @@ func (pc *PartitionContext) removeAllocation(release *si.AllocationRelease) ([]*
 				zap.String("nodeID", alloc.GetNodeID()))
 			continue
 		}
-		if release.TerminationType == si.TerminationType_PLACEHOLDER_REPLACED {
+		// a replacement is only processed if the placeholder really has one linked: a confirmation for a
+		// placeholder that is not being replaced is handled as a plain removal
+		if release.TerminationType == si.TerminationType_PLACEHOLDER_REPLACED && alloc.GetRelease() != nil {
 			confirmed = alloc.GetRelease()
 			// we need to check the resources equality
 			delta := resources.Sub(confirmed.GetAllocatedResource(), alloc.GetAllocatedResource())
